@@ -28,7 +28,7 @@ def packet_obj(addr_mode, ext=False, sr=None):
                                                      "priority": Sym("prio"), "data": Sym("data")}, tag="packet")
 
 
-def explore_send_packet(ctx, addr_mode, statuses, confirm, ext=False, sr=None, device_known=True):
+def explore_send_packet(ctx, addr_mode, statuses, confirm, ext=False, sr=None, device_known=True, want_px=False):
     repo = ctx.repo
     f = repo.func(f"{APP}:ControllerApplication.send_packet")
     sl = repo.cls(NAMED, "sl_Status").members()
@@ -57,7 +57,16 @@ def explore_send_packet(ctx, addr_mode, statuses, confirm, ext=False, sr=None, d
         ez = Obj(TypeRef("EZSP"), {"is_ezsp_running": True}, tag="self._ezsp")
         return self_obj(cls, {"_ezsp": ez}), {"packet": packet_obj(addr_mode, ext, sr)}
 
-    return f, px.explore(f, setup)
+    paths = px.explore(f, setup)
+    return (f, paths, px) if want_px else (f, paths)
+
+
+def _visited_send(ctx):
+    if "send_visited" not in ctx.run.shared:
+        sl = ctx.repo.cls(NAMED, "sl_Status").members()
+        f0, paths0, px0 = explore_send_packet(ctx, "NWK", ("OK",), Outcomes(OK((sl["OK"], "m"))), ext=True, sr=[1], want_px=True)
+        ctx.run.shared["send_visited"] = set(px0.visited)
+    return ctx.run.shared["send_visited"]
 
 
 def sends(p):
@@ -224,14 +233,16 @@ def r12_2(ctx):
     for g, n in index(repo).references("_pending"):
         if g.mod != APP:
             continue
-        ctx.require(g.short in ("ControllerApplication.__init__", "ControllerApplication.send_packet", "ControllerApplication._handle_frame_sent"),
+        ctx.require(g.short in ("ControllerApplication.__init__", "ControllerApplication._handle_frame_sent") or g.qual in _visited_send(ctx),
                     f"_pending:user:{g.short}", f"pending table used in {g.short}", func=g, node=n)
+    # the set-up wrappers are called only from functions explored above (send_packet and the helpers it is split into)
+    f0, paths0, px0 = explore_send_packet(ctx, "NWK", ("OK",), confirm, ext=True, sr=[1], want_px=True)
     for name in ("set_extended_timeout", "set_source_route"):
         for g, n in index(repo).callers(name):
             if g.mod.startswith("bellows.cli"):
                 continue
-            ctx.require(g.short == "ControllerApplication.send_packet", f"{name}:caller:{g.short}", f"{name} is called from {g.short}, outside send_packet's "
-                        "request lock", func=g, node=n)
+            ctx.require(g.qual in px0.visited, f"{name}:caller:{g.short}", f"{name} is called from {g.short}, which is not part of send_packet's explored "
+                        "set-up + send sequence under the request lock", func=g, node=n)
 
 
 ROLE_TX = {"indexordestination": "DEST", "nwk": "DEST", "messagetag": "TAG", "type": "TYPE", "messagetype": "TYPE", "apsframe": "APS",
